@@ -176,13 +176,41 @@ func cmdCheck(args []string) int {
 		fmt.Fprintf(os.Stderr, "govc: no obligations selected for %s (vacuity guard)\n", prop)
 		return 2
 	}
-	opts := engine.SolveOpts{Timeout: 10, Dir: scratch, Keep: *keep, Parallel: 6, Seed: seed}
+	// Solver seeds are left at their defaults (a discharged obligation must not depend on luck);
+	// VERIF_SEED only drives the extra attempts of the thorough tier.
+	opts := engine.SolveOpts{Timeout: 10, Dir: scratch, Keep: *keep, Parallel: 6}
 	if *tier == "thorough" {
 		opts.Timeout = 60
 		opts.WaitAll = true
 		opts.Parallel = 5
 	}
 	run.results = engine.DischargeAll(run.selected, opts)
+	// one retry for obligations that no solver decided: first with a longer budget, in the thorough tier also reseeded
+	for attempt := 1; attempt <= 2; attempt++ {
+		var again []*engine.Obligation
+		var idx []int
+		for i, r := range run.results {
+			if r.Status == "undecided" && r.By == "" {
+				again = append(again, r.Obl)
+				idx = append(idx, i)
+			}
+		}
+		if len(again) == 0 || (attempt == 2 && *tier != "thorough") {
+			break
+		}
+		o2 := opts
+		o2.Timeout = opts.Timeout * 3
+		o2.Parallel = 3
+		if attempt == 2 {
+			o2.Seed = seed + 7919
+		}
+		res := engine.DischargeAll(again, o2)
+		for k, r := range res {
+			if r.Status == "discharged" || r.Status == "failed" {
+				run.results[idx[k]] = r
+			}
+		}
+	}
 
 	known := loadKnown()
 	lock := loadLock()
